@@ -116,8 +116,20 @@ def finder_cases(draw):
     return spec
 
 
+@st.composite
+def scalar_cases(draw):
+    """The degenerate end of 'ordinary network': scalars only, no label at
+    all (what a partitioner hands to its sub-optimizer for a part without
+    bonds) - nothing can be truncated, so every estimate is the exact figure,
+    whatever the cap, the default cap included."""
+    n = draw(st.integers(2, 6))
+    return {"kind": "scalars", "n": n, "path": draw(gen.linear_paths(n)), "late": draw(st.booleans())}
+
+
 def strategy(tier, sub=None):
-    return st.one_of(stat_cases(), stat_cases(), finder_cases())
+    return st.integers(0, 39).flatmap(
+        lambda i: scalar_cases() if i == 0 else st.one_of(stat_cases(), stat_cases(), finder_cases())
+    )
 
 
 def budget(tier, sub=None):
@@ -374,7 +386,48 @@ def run_finder(spec):
     return Outcome(viol, n >= 3, ["kind=finder", f"method={m}"])
 
 
+def run_scalars(spec):
+    import cotengra as ctg
+
+    n = spec["n"]
+    inputs, output, sizes = [()] * n, (), {}
+    viol = []
+    path = [tuple(p) for p in spec["path"]]
+    cr = ref.CostRef(inputs, output, sizes)
+
+    def figures():
+        tc = ctg.ContractionTreeCompressed.from_path(inputs, output, sizes, path=path)
+        exact = ctg.ContractionTree.from_path(inputs, output, sizes, path=path)
+        st_ = cr.stats([(p, l, r) for p, l, r in exact.traverse()])
+        capped = tc.compressed_contract_stats(chi=4, compress_late=spec["late"])
+        return (
+            (st_["flops"], st_["size"], st_["write"]),
+            (capped.flops, capped.max_size, capped.write - n),
+            # ... and with the default cap (chi='auto')
+            (tc.total_flops(), tc.max_size(), tc.total_write() - n),
+        )
+
+    ok, r = guarded(figures)
+    if not ok:
+        viol.append(f"compressed estimates of a network of {n} scalars raised {r}")
+    else:
+        want, capped, default = r
+        if capped != want:
+            viol.append(f"{n} scalars, chi=4: compressed (flops, max_size, write - inputs) {capped} != exact {want}")
+        if default != want:
+            viol.append(f"{n} scalars, default cap: compressed (flops, max_size, write - inputs) {default} != exact {want}")
+    for preset in ("greedy-compressed",):
+        ok, t = guarded(ctg.array_contract_tree, inputs, output, sizes, optimize=preset)
+        if not ok:
+            viol.append(f"compressed finder {preset} on {n} scalars raised {t}")
+        elif not t.is_complete():
+            viol.append(f"compressed finder {preset} on {n} scalars: tree is not complete")
+    return Outcome(viol, n >= 3, ["scalars_only", f"n={n}"])
+
+
 def run_case(spec, sub=None):
     if spec["kind"] == "stats":
         return run_stats(spec)
+    if spec["kind"] == "scalars":
+        return run_scalars(spec)
     return run_finder(spec)
